@@ -435,6 +435,8 @@ Definition mk_gene (s : sym) (par : f64) (args : list nat) : gene :=
 Definition empty_genome (r c : nat) (b : locus) : genome :=
   {| rows := r; cats := c; cell := fun _ _ => None; best := b |}.
 Definition mk_locus (i c : nat) : locus := {| l_index := i; l_cat := c |}.
+(* driver-side name of set_cell (Mep/OpsDefs.v has a set_cell of its own) *)
+Definition put_gene (g : genome) (l : locus) (ge : gene) : genome := set_cell g l ge.
 
 (* ------------------------------------------------- the invariant (Prop) *)
 (* the cached signature is either empty or the hash of the current content *)
